@@ -579,6 +579,7 @@ func rulesC06(c *Ctx) {
 	identEntryRule(c, "C06.bare")
 	everyCharRule(c, "C06.everychar", "IdentNeedsQuotes")
 	quotedIdentTokensRule(c, "C06.quotedident")
+	scannerStatelessRule(c, "C06.scannerstate")
 }
 
 func derivesFromParam(v ssa.Value, f *ssa.Function, depth int) bool {
